@@ -144,6 +144,60 @@ pub fn model_outcome(s: &str) -> String {
     s.split(" traces=").next().unwrap_or(s).trim().to_string()
 }
 
+/// hand-written self-checking modules (`corpus/C01/*.ak`, `fn probe() -> List<Bool>`): every probe must be
+/// True before and after optimisation under silent and verbose tracing
+fn probe_corpus(rep: &mut Report) {
+    let dir = format!("{}/corpus/C01", crate::c02::root());
+    let mut files: Vec<std::path::PathBuf> = std::fs::read_dir(&dir)
+        .map(|rd| rd.filter_map(|e| e.ok()).map(|e| e.path()).filter(|p| p.extension().map(|e| e == "ak").unwrap_or(false)).collect())
+        .unwrap_or_default();
+    files.sort();
+    rep.count_n("probe-corpus-files", files.len() as u64);
+    for f in files {
+        let src = std::fs::read_to_string(&f).unwrap_or_default();
+        let name = f.file_stem().map(|s| s.to_string_lossy().to_string()).unwrap_or_default();
+        for s in [comp::settings()[0].clone(), comp::settings()[2].clone()] {
+            let ch = match comp::check(&src, s.1) {
+                Ok(c) => c,
+                Err(e) => {
+                    rep.fail(&format!("c01:probe-corpus:{}:{}:not-accepted", name, s.0), "a corpus module is not accepted by the checker", json!({"file": name}), json!({"error": e.chars().take(300).collect::<String>()}));
+                    continue;
+                }
+            };
+            let (post, pre) = comp::compile_keep_pre(&ch, "probe", s.1);
+            let mut progs = vec![];
+            match post {
+                Ok(p) => progs.push(("post-optimisation", p)),
+                Err(e) => {
+                    rep.fail(&format!("c01:probe-corpus:{}:{}:compile-panic", name, s.0), "the compiler panicked on a corpus module", json!({"file": name, "source": src}), json!({"panic": e}));
+                    continue;
+                }
+            }
+            if let Some(raw) = pre {
+                progs.push(("pre-optimisation", comp::evaluable_pre(&raw)));
+            }
+            for (which, prog) in progs {
+                rep.evaluations += 1;
+                let out = comp::eval(&prog, &[]);
+                let canon = out.canonical();
+                // `ok (li bo (bo 1) (bo 1) …)`
+                let falses: Vec<usize> = canon.match_indices("(bo ").enumerate().filter(|(_, (i, _))| canon[*i..].starts_with("(bo 0)")).map(|(k, _)| k).collect();
+                if !canon.starts_with("ok") || !falses.is_empty() {
+                    rep.fail(
+                        &format!("c01:probe-corpus:{}:{}:{}", name, s.0, which),
+                        "a semantic probe of a corpus module is false (compiled code does not compute what the source means)",
+                        json!({"file": name, "source": src, "function": "probe", "tracing": s.0, "program": which}),
+                        json!({"false_probes": falses, "outcome": canon.chars().take(400).collect::<String>()}),
+                    );
+                } else {
+                    rep.count("probe-corpus:all-true");
+                    rep.nontrivial.insert(format!("probe-corpus:{}:{}:{}", name, s.0, which));
+                }
+            }
+        }
+    }
+}
+
 pub fn run(ctx: &Ctx) -> Report {
     let mut rep = Report::new(
         "c01",
@@ -152,6 +206,7 @@ pub fn run(ctx: &Ctx) -> Report {
     let n_modules: u64 = comp::arg_u64("--modules").unwrap_or(if ctx.thorough { 5000 } else { 400 });
     let n_args: usize = comp::arg_u64("--inputs").unwrap_or(if ctx.thorough { 24 } else { 10 }) as usize;
     let seed = ctx.seed;
+    probe_corpus(&mut rep);
     rep.count(&format!("generated-modules-{}", n_modules));
     // in chunks, so that the requests of a thorough run never sit in memory all at once
     let chunk: u64 = 2000;
